@@ -1680,6 +1680,11 @@ class BaseSQL(
         | multi_id_statement in_statement
         """
         p_list = list(p)
+        if isinstance(p_list[-1], dict):
+            # <conditions> AND <name> IN (...): the IN part joins the statement text
+            in_statement = p_list[-1]["in_statement"]
+            in_values = ", ".join(in_statement["in"])
+            p_list[-1] = f"{in_statement['name']} IN ({in_values})"
         p[0] = " ".join(p_list[1:])
 
     def p_check_st(self, p: List) -> None:
